@@ -5,6 +5,7 @@
 //                               TEXEL_VERIF hook: exercises the capture/ply combination at the end     -> int|inf
 //  pg gengame seed plies minMen style   (style bit 3: pawn-capture seeking) random legal game from the initial position (input generator)  -> moves | fen
 //  pg bound <fenA> | <fenB>     bounds / verdicts of the API for the pair (monitor, implementation only)
+//  pg deadlock blocked <fenP> <fenG>  ProofGame::computeDeadlockedPieces(P, G, blocked)                -> blocked-after ret
 #include <memory>
 #include <vector>
 #include <string>
@@ -290,6 +291,16 @@ std::string opBound(const std::vector<std::string>& a) {
     return os.str();
 }
 
+std::string opDeadlock(const std::vector<std::string>& a) {
+    if (a.size() != 14) return "bad-op";
+    U64 blocked = vToU64(a[1]);
+    Position pos = TextIO::readFEN(vFenOf(a, 2, 8));
+    Position goal = TextIO::readFEN(vFenOf(a, 8, 14));
+    if (blocked & ~pos.occupiedBB()) return "bad-op";          // the model's hypothesis: blocked squares are occupied
+    bool ret = ProofGame::computeDeadlockedPieces(pos, goal, blocked);
+    return std::to_string(blocked) + (ret ? " 1" : " 0");
+}
+
 std::string handle(const std::vector<std::string>& a) {
     if (a.empty()) return "bad-op";
     const std::string& op = a[0];
@@ -299,6 +310,7 @@ std::string handle(const std::vector<std::string>& a) {
         if (op == "plies") return opPlies(a);
         if (op == "gengame") return opGenGame(a);
         if (op == "bound") return opBound(a);
+        if (op == "deadlock") return opDeadlock(a);
     } catch (const ChessParseError& e) {
         return std::string("err ") + e.what();
     }
